@@ -57,7 +57,7 @@ func init() {
 		{Name: "coopmem", Pkg: "./mon/c11", Env: []string{"VERIF_MODE=coopmem"}, Par: true, RepeatQuick: 4, RepeatThorough: 16, Instr: []string{"core/system_metric/sys_metric_stat.go"}},
 	}})
 	specs = append(specs, Spec{ID: "C12", Level: "exploration", MinDistinct: 1000, Engines: []Engine{
-		{Name: "coop", Pkg: "./mon/c12", Instr: []string{"core/circuitbreaker/circuit_breaker.go", "core/stat/base/leap_array.go"}},
+		{Name: "coop", Pkg: "./mon/c12", Instr: []string{"core/circuitbreaker/circuit_breaker.go", "core/stat/base/leap_array.go"}, WidenSkip: []string{"core/stat/base"}},
 		{Name: "stress", Pkg: "./mon/c12", Race: true, Env: []string{"VERIF_MODE=stress"}, DeathSig: "C12/stress:process-died"},
 	}})
 	specs = append(specs, Spec{ID: "C13", Level: "exploration", MinDistinct: 50, Engines: []Engine{
